@@ -40,6 +40,12 @@ type Trace11 struct {
 	// offers, not something the property demands: such a prime only makes
 	// history on the instance, its own outcome is not judged.
 	Mirror bool `json:"mirror,omitempty"`
+	// ECI (prime symbols only): the message opens with FLG(n) announcing this
+	// extended channel interpretation. The property's statement names the five
+	// code tables and binary shift, not ECIs: such a prime only makes history
+	// on the instance (a character set left behind must not reach the next
+	// symbol), its own outcome is not judged.
+	ECI int `json:"eci,omitempty"`
 }
 
 type rngChooser struct{ r *kit.RNG }
@@ -65,6 +71,9 @@ func bytesOf(b []int) []byte {
 // build11 runs the stub sender.
 func build11(tr *Trace11, probe func(string)) *az.Symbol {
 	bits := az.HighLevel(bytesOf(tr.Text), rngChooser{kit.NewRNG(tr.EncSeed)}, az.Probe(probe))
+	if tr.ECI > 0 {
+		bits = append(az.ECIPrefix(tr.ECI), bits...)
+	}
 	words := az.Stuff(bits, az.WordSize(tr.Layers), az.Probe(probe))
 	mc := tr.MinCheck
 	if mc == 0 {
@@ -137,12 +146,15 @@ func exec11(tr *Trace11, probe func(string)) (string, *fail) {
 		p.Prime = nil
 		p.Path, p.Scale, p.Rot, p.Quiet = tr.Path, tr.Scale, tr.Rot, tr.Quiet
 		probe("probe.instance_reused_after_other_symbol")
-		if out, f := exec11on(in, &p, probe); f != nil && !p.Mirror {
+		if out, f := exec11on(in, &p, probe); f != nil && !p.Mirror && p.ECI == 0 {
 			f.class = "prime/" + f.class
 			return out, f
 		}
 		if p.Mirror {
 			probe("probe.instance_reused_after_mirror_image")
+		}
+		if p.ECI != 0 {
+			probe("probe.instance_reused_after_symbol_with_eci")
 		}
 	}
 	out, f := exec11on(in, tr, probe)
@@ -700,6 +712,14 @@ func C11() *kit.Spec {
 								pm := *ptr
 								pm.Mirror = true
 								t2.Prime = &pm
+							}
+						}
+						if r.Chance(1, 3) {
+							// the earlier symbol announces another character set
+							pe := *t2.Prime
+							pe.ECI = []int{26, 20, 25, 7, 29, 4, 28, 30, 22}[r.Intn(9)]
+							if build11(&pe, func(string) {}) != nil {
+								t2.Prime = &pe
 							}
 						}
 						c.Eval(kit.HashJSON(&t2), true)
